@@ -1,7 +1,7 @@
 """C14 rules: R-PS-PAIR, R-PS-COUNT, R-PS-REPLYCOUNT, R-PS-DEDUP, R-PS-CLOSE."""
 import re
 from facts import callee, op_local, op_place, op_is_const
-import cfg, shared, prov
+import cfg, shared, prov, boolpath
 from shared import SERVER
 
 PS = "pubsub::PubSubManager::"
@@ -345,3 +345,76 @@ def rule_bytes(ctx, R):
                               "the bytes handed to %s (argument %d, line %d) have passed through %s (%s): channel / pattern / payload bytes do not arrive intact -- names that are not valid UTF-8 are stored mangled, so publishes on the real channel are not delivered and distinct names collapse into one"
                               % (c.split("::")[-1], k, b.bb_line(i), shared.short_callee(f_), ctx.prog.bodies[w].loc(bb_)), b.loc(i))
     R.floor("pubsub_byte_arguments", n)
+
+
+# ---- R-PS-ENTRYDROP -------------------------------------------------------------------------------
+_SUBMAP = r"std::collections::HashMap::<std::vec::Vec<u8>, std::collections::HashSet<u64>>::"
+
+
+class _EmptySpec(boolpath.Spec):
+    """evidence: a subscriber set was found empty"""
+    def call(s, b, bbi, t):
+        if re.search(r"^std::collections::HashSet::<u64>::is_empty$", t["f"] or ""):
+            return boolpath.A
+        return None
+
+
+def rule_entrydrop(ctx, R):
+    """a channel / pattern entry of the global maps is dropped only when its subscriber set has
+    become empty: a `retain` closure answers `drop` (false) only under `subscribers.is_empty()`,
+    a `remove` of an entry happens under that test, or removes keys that were collected under it.
+    Dropping an entry because the leaving connection was IN it takes the other subscribers along:
+    they stop receiving and PUBLISH stops counting them."""
+    n = 0
+    for fn, b in sorted(ctx.prog.bodies.items()):
+        if not fn.startswith(PS) or "::tests::" in fn or b.kind == "Closure":
+            continue
+        try:
+            ex = boolpath.explore(b, _EmptySpec())
+        except boolpath.TooManyStates as e:
+            R.broken.append(str(e)); continue
+        for i, t in b.calls():
+            f = t["f"] or ""
+            if b.bbs[i]["cleanup"]:
+                continue
+            if re.search(_SUBMAP + r"retain(::<.*>)?$", f):
+                n += 1
+                ok = False
+                for cl in t.get("clos") or ():
+                    cb = ctx.prog.bodies.get(cl)
+                    if cb is not None:
+                        try:
+                            ok = boolpath.ret_kind(cb, _EmptySpec()) == boolpath.N
+                        except boolpath.TooManyStates:
+                            ok = False
+                R.inst(fn, "entry-drop:retain", {"function": fn, "at": b.loc(i), "drops_only_empty_entries": ok})
+                if not ok:
+                    R.finding(fn, "entry-drop:retain:not-tied-to-emptiness",
+                              "%s drops entries of a subscriber map with retain (line %d) and the closure can answer `drop` for a set that is not empty: every other client subscribed to the same channel / pattern is dropped with the leaving one" % (fn.split("::")[-1], b.bb_line(i)), b.loc(i))
+            elif re.search(_SUBMAP + r"remove(::<.*>)?$", f) and len(t["a"]) >= 2:
+                n += 1
+                ok = i not in ex.reached
+                if not ok and not op_is_const(t["a"][1]):
+                    # keys collected earlier under the emptiness test
+                    P = prov.operand_origins(b, t["a"][1], deep=True)
+                    srcs = set(rules_rdb_root_locals(b, t["a"][1]))
+                    for c_, bb_ in list(P.via) + [(r[1], r[2]) for r in P.roots if r[0] == "call"]:
+                        if re.search(r"IntoIterator>::into_iter$|::iter$|::drain", c_):
+                            tt = b.term(bb_)
+                            if tt["a"] and not op_is_const(tt["a"][0]):
+                                srcs |= rules_rdb_root_locals(b, tt["a"][0])
+                        if re.search(r"Vec::<std::vec::Vec<u8>>::(new|with_capacity)$", c_):
+                            srcs.add(b.term(bb_)["d"]["l"])
+                    pushes = [j for j, tj in b.calls() if re.search(r"Vec::<std::vec::Vec<u8>>::push$", tj["f"] or "") and tj["a"] and not op_is_const(tj["a"][0]) and (rules_rdb_root_locals(b, tj["a"][0]) & srcs)]
+                    if pushes and all(j not in ex.reached for j in pushes):
+                        ok = True
+                R.inst(fn, "entry-drop:remove", {"function": fn, "at": b.loc(i), "under_or_collected_under_an_emptiness_test": ok})
+                if not ok:
+                    R.finding(fn, "entry-drop:remove:not-tied-to-emptiness",
+                              "%s removes an entry of a subscriber map (line %d) on a path with no test that its subscriber set is empty" % (fn.split("::")[-1], b.bb_line(i)), b.loc(i))
+    R.floor("subscriber_map_entry_drops", n)
+
+
+def rules_rdb_root_locals(b, o):
+    import rules_rdb
+    return rules_rdb.root_locals(b, o)
